@@ -146,6 +146,7 @@ def run(ctx: core.Ctx):
                         ctx.fail("iteragg", dict(op="sum", dtype=dt, dim=dim, n=n, window=[jj, ii], values=cube[jj:ii, 0, 0].tolist()),
                                  np.asarray(g).squeeze().tolist(), ref.tolist(), note="each result is the sum of its window")
                         break
+    core.acc_dispatch(ctx, ['iteragg'])
     ctx.trusted += ["native model driver (Hdc/Model/Discrete.lean)", "pandas get_indexer (external)", "harness/props/c19.py oracle"]
 
 
